@@ -27,6 +27,7 @@ func init() {
 		Race:         true,
 		FreshProcess: true,
 		Rule: "built with -race. Each round takes one module (parsed from the corpus or constructed through the API, with unnamed globals, locals and unassigned metadata IDs), in never-printed or already-printed state, and lets N in {2,4,16} goroutines (GOMAXPROCS 2 or 16) start on a barrier and call String/WriteTo/Func.LLString/Block.LLString/Global.LLString/Type/Ident/String on it, while the Yield hooks inside AssignIDs/AssignGlobalIDs/AssignMetadataIDs/WriteTo/Func.LLString inject PRNG Gosched/sleeps; every returned text is compared with a separately built twin printed sequentially (in the fresh scenario only after the first concurrent round, which starts 16 whole-module printers at once: each case runs in its own process, so the first printing activity of the process is concurrent and process-level state initialised by a first print is not warmed up beforehand), and every race-detector report is a violation (de-duplicated by the pair of top llir/llvm frames). " +
+			"Scenario literal: a never-printed module whose function, globals, alias and constant expression are built as struct literals (empty Typ caches), whole-module printers only. " +
 			"non-trivial = a round in which at least two printers were inside a print call at the same time (witnessed by the harness' activity counter); distinct by (module, state, N, round)",
 		Gen:           genC13,
 		MinNontrivial: 50,
